@@ -229,3 +229,19 @@ impl std::fmt::Display for ShowOnly {
         self.0.fmt(f)
     }
 }
+
+/// ... and one with both
+#[derive(Clone, Debug, PartialEq, serde::Serialize, serde::Deserialize)]
+#[serde(transparent)]
+pub struct Both(pub String);
+impl std::fmt::Display for Both {
+    fn fmt(&self, f: &mut std::fmt::Formatter<'_>) -> std::fmt::Result {
+        self.0.fmt(f)
+    }
+}
+impl std::str::FromStr for Both {
+    type Err = std::convert::Infallible;
+    fn from_str(s: &str) -> Result<Self, Self::Err> {
+        Ok(Both(s.to_string()))
+    }
+}
